@@ -67,3 +67,36 @@ package middleware
 //@   modifies nothing
 //@   ensures m != nil ==> result0 == m.cut.deadline && result1 == m.cut.key
 //@   ensures m == nil ==> tzero(result0) && result1 == 0
+//@
+//@ # wire-born request accessors (header bits and OPT summary of the undecoded query): named, not interpreted, here
+//@ uninterp reqCD(r *Request) bool
+//@ uninterp reqAD(r *Request) bool
+//@ uninterp reqDO(r *Request) bool
+//@ uninterp reqHasOPT(r *Request) bool
+//@ uninterp reqUDPSize(r *Request) uint16
+//@ func (*Request).CD
+//@   trusted
+//@   modifies nothing
+//@   ensures result == reqCD(r)
+//@ func (*Request).AD
+//@   trusted
+//@   modifies nothing
+//@   ensures result == reqAD(r)
+//@ func (*Request).DO
+//@   trusted
+//@   modifies nothing
+//@   ensures result == reqDO(r)
+//@ func (*Request).HasOPT
+//@   trusted
+//@   modifies nothing
+//@   ensures result == reqHasOPT(r)
+//@ func (*Request).UDPSize
+//@   trusted
+//@   modifies nothing
+//@   ensures result == reqUDPSize(r)
+//@ uninterp wProto(w ResponseWriter) string
+//@ func (ResponseWriter).Proto
+//@   trusted
+//@   params w
+//@   modifies nothing
+//@   ensures sameslice(result, wProto(w))
